@@ -16,7 +16,7 @@ ENGINE_SWITCHES = {
                "NATIVE_BREAK_IN_MATCH", "CALL_PREFERS_TOPLEVEL_FUNCTION"],
     "interp": ["INTERP_DYNAMIC_SCOPE", "INTERP_RETURN_IN_MATCH_ARM", "NATIVE_FOR_IN_ARRAY_SKIPPED", "INTERP_NO_BLOCK_SCOPE",
                "INTERP_ARRAY_LIT_FIRST_TWICE", "INTERP_STATIC_ARRAYS", "RAW_STRING_ESCAPES", "CALL_PREFERS_TOPLEVEL_FUNCTION",
-               "INTERP_NO_NESTED_ARRAYS"],
+               "INTERP_NO_NESTED_ARRAYS", "NATIVE_BREAK_IN_MATCH"],
 }
 
 
